@@ -13,10 +13,11 @@
     pid <string>            → ok <name> <data> | err      plugin.ParseIdentity
     pencrec <name> <data>   → <string>  ("-" when the name is invalid)   plugin.EncodeRecipient
     pencid <name> <data>    → <string>  ("-" when the name is invalid)   plugin.EncodeIdentity
-    nrec <string>           → ok <name> <encoding> <command> | err   plugin.NewRecipient + command run by Wrap
-    nid <string>            → ok <name> <encoding> <command> | err   plugin.NewIdentity
-    pidnodata <name>        → ok <name> <encoding> <command> | err   plugin.NewIdentityWithoutData
-                              (<command> is `sep` when openClientConnection refuses the name)
+    nrec <string>           → ok <name> <encoding> | err   plugin.NewRecipient
+    nid <string>            → ok <name> <encoding> | err   plugin.NewIdentity
+    pidnodata <name>        → ok <name> <encoding> | err   plugin.NewIdentityWithoutData
+    pexec <name>            → <command> | sep             first argument of exec.Command in openClientConnection
+                              for a client value with that name (`sep`: refused, nothing is started)
     clirec <arg>            → plugin <name> <command> | x25519 <key> | ssh | err    cmd/age parseRecipient
     cliid <arg>             → plugin <name> <command> | x25519 <key> | err          cmd/age parseIdentity
     clij <name>             → plugin <name> <command> | err                         cmd/age -j
@@ -49,7 +50,7 @@ def command (c : Client) : String :=
   | .error _ => "sep"
 
 def client : Except Keys.Err Client → String
-  | .ok c => s!"ok {sum c.name} {sum c.encoding} {command c}"
+  | .ok c => s!"ok {sum c.name} {sum c.encoding}"
   | .error _ => "err"
 
 def cli : Except Keys.Err CliValue → String
@@ -98,6 +99,7 @@ def handle (op : String) (args : List String) : Option String :=
   | "nrec" => some <| un1 args fun s => client (newRecipient s)
   | "nid" => some <| un1 args fun s => client (newIdentity s)
   | "pidnodata" => some <| un1 args fun n => client (newIdentityWithoutData n)
+  | "pexec" => some <| un1 args fun n => command { name := n, encoding := [] }
   | "clirec" => some <| un1 args fun s => cli (cliParseRecipient s)
   | "cliid" => some <| un1 args fun s => cli (cliParseIdentity s)
   | "clij" => some <| un1 args fun s => cli (cliPluginFlag s)
